@@ -607,7 +607,43 @@ def drive_queue_worker(job, case, mon):
     return None
 
 
-DRIVERS = {"reused": drive_reused, "fresh": drive_fresh, "runspace_cli": drive_runspace_cli, "queue_worker": drive_queue_worker}
+def drive_relaunch_cli(job, case, mon):
+    """N separate `semantiva run` LAUNCHES (in-process CLI), each of a one-run run space, always traced into one
+    directory: what a launch leaves behind per launch (launch ids, emitters, drivers) shows here."""
+    import yaml
+    from semantiva import cli
+
+    context = {"c18_run": [0]}
+    for key, v in case["ctx"].items():
+        context[key] = [copy.deepcopy(v)]
+    doc = {"extensions": ["semantiva-examples", "vlib.components"],
+           "run_space": {"combine": "by_position", "max_runs": 2, "blocks": [{"mode": "by_position", "context": context}]},
+           "pipeline": {"nodes": case["nodes"]},
+           "trace": {"driver": "jsonl", "output_path": os.path.join(job["scratch"], "traces"), "options": {"detail": job.get("detail", "hash")}}}
+    os.makedirs(os.path.join(job["scratch"], "traces"), exist_ok=True)
+    path = os.path.join(job["scratch"], "relaunch.yaml")
+    with open(path, "w", encoding="utf-8") as fh:
+        yaml.dump(doc, fh, Dumper=_NoAliasDumper(yaml), sort_keys=False)
+    del doc, context
+    for k in range(1, job["n"] + 1):
+        try:
+            cli.main(["run", path, "--quiet"])
+        except SystemExit as exc:
+            if (exc.code or 0) != 0:
+                raise RuntimeError(f"semantiva run exited with {exc.code}")
+        if k % 50 == 0:      # keep the trace directory small: the files are not what is measured
+            for f in os.listdir(os.path.join(job["scratch"], "traces")):
+                try:
+                    os.unlink(os.path.join(job["scratch"], "traces", f))
+                except OSError:
+                    pass
+        mon.maybe_sample(k)
+        if mon.stop:
+            break
+    return None
+
+
+DRIVERS = {"relaunch_cli": drive_relaunch_cli, "reused": drive_reused, "fresh": drive_fresh, "runspace_cli": drive_runspace_cli, "queue_worker": drive_queue_worker}
 
 
 def main(argv) -> int:
